@@ -50,6 +50,12 @@ class AnyField(Agg):
 def install(M):
     c03.install(M)
 
+    def staged_names(P, c, args, dt):
+        if 'c14_staged' not in P.state:
+            raise Unsupported('get_staged_filenames outside the commit-time obligation')
+        return ok(MapV('hash', [[pystring(f), None] for f in P.state['c14_staged']], 'set'))
+    M.env['git::status::Repository::get_staged_filenames'] = staged_names
+
     def cfg_get(P, c, args, dt):
         return Ref(Cell(Agg('config::Config', [])))
 
@@ -96,6 +102,10 @@ def install(M):
 
 def plan(tier, seed):
     tasks = []
+    for staged in ([], ['f'], ['f', 'g']):
+        tasks.append(('pre_commit_always', {'staged': staged}))
+    for prev in (False, True):
+        tasks.append(('append_stores', {'prev': prev}))
     for kind in ('Human', 'AiAgent', 'AiTab'):
         for pre in (False, True):
             for init in (False, True):
@@ -353,7 +363,73 @@ def ob_pre_commit_untracked(h, shape):
     h.sample = h.witness()
 
 
-OBLIGATIONS = {'repeat': ob_repeat, 'changed': ob_changed, 'prune_select': ob_prune_select, 'pre_commit_skip': ob_pre_commit_skip,
+def ob_pre_commit_always(h, shape):
+    """K5: the commit-time step records what a person typed since the last checkpoint whatever the index holds at that
+    moment (`git commit -a` and `git commit -- <path>` stage by themselves): pre_commit always takes the Human
+    checkpoint - otherwise an extra explicit checkpoint before the commit, which the property calls redundant, would
+    change the note"""
+    P = h.P
+    M = P.M
+    staged = shape['staged']
+    P.state['c03_merge'] = {'dirty': True}
+    P.state['c14_staged'] = staged
+    h.inputs_struct = {'staged_files': staged}
+    repo = c03.mk_repo(M)
+    try:
+        r = P.call_named('authorship::pre_commit::pre_commit', [Ref(Cell(repo)), pystring('A U Thor')])
+    except Panic as e:
+        h.panic('K5-pre-commit-no-panic', e.msg)
+        return
+    took = [e for e in P.events if e[0] == 'checkpoint_run' and e[1] == 'Human']
+    h.require(bool(took), 'K5-commit-time-checkpoint-is-always-taken', 'with %d staged file(s) no Human checkpoint is taken at commit time' % len(staged))
+    h.sample = h.witness()
+
+
+def ob_append_stores(h, shape):
+    """K6: every checkpoint handed to the working log is stored, also one that looks like a repeat of the last (same tree
+    hash, kind and agent): its entries depend on the mode it ran in, not only on the tree, and the next checkpoint
+    diffs against them"""
+    P = h.P
+    M = P.M
+    wl = c03.mk_wl(M)
+    P.state['wl'] = wl
+    P.state['fs'] = {'/wl': 'DIR'}
+    stats = Agg('authorship::working_log::CheckpointLineStats', [Sc(0, 32) for _ in M.src.struct_fields('authorship::working_log::CheckpointLineStats')])
+
+    def ck(i, kind, diff, files):
+        entries = [mk_struct(M, WLE, file=pystring(f), blob_sha=pystring('b%d_%s' % (i, f)), attributions=VecV([]), line_attributions=VecV([])) for f in files]
+        return mk_struct(M, CKPT, kind=mk_enum(M, KIND, kind), diff=pystring(diff), author=pystring('x'), entries=VecV(entries),
+                         timestamp=Sc(i, 64), transcript=none(), agent_id=none(), agent_metadata=none(), line_stats=stats,
+                         api_version=pystring('checkpoint/1.0.0'), git_ai_version=none())
+    kinds = ['Human', 'AiAgent']
+    k0 = kinds[h.choice(2)]
+    k1 = kinds[h.choice(2)]
+    same_diff = h.choice(2) == 1
+    prev = [ck(0, k0, 'tree1', ['a'])] if shape['prev'] else []
+    if prev:
+        v0 = VecV(prev)
+        r = P.call_named(PWL + '::write_all_checkpoints', [Ref(Cell(wl)), SliceRef(v0, 0, 1)])
+        if r.var != 'Ok':
+            raise Unsupported('seeding checkpoints failed')
+    new = ck(1, k1, 'tree1' if same_diff else 'tree2', ['a', 'b'])
+    h.inputs_struct = {'previous': [k0] if prev else [], 'new_kind': k1, 'same_tree': same_diff}
+    try:
+        r = P.call_named(PWL + '::append_checkpoint', [Ref(Cell(wl)), Ref(Cell(new))])
+    except Panic as e:
+        h.panic('K6-append-no-panic', e.msg)
+        return
+    h.require(r.var == 'Ok', 'K6-append-ok', 'append_checkpoint failed')
+    got = P.call_named(PWL + '::read_all_checkpoints', [Ref(Cell(wl))])
+    n = len(got.f[0].e) if got.var == 'Ok' else -1
+    h.require(n == len(prev) + 1, 'K6-every-checkpoint-is-stored', 'the working log holds %d checkpoint(s) after appending to %d' % (n, len(prev)))
+    if n == len(prev) + 1:
+        last = got.f[0].e[-1]
+        files = sorted(bytes(concrete_bytes(as_bytes(field(M, e, WLE, 'file')))).decode() for e in field(M, last, CKPT, 'entries').e)
+        h.require(files == ['a', 'b'], 'K6-stored-checkpoint-keeps-its-entries', 'entries of the stored checkpoint: %r' % files)
+    h.sample = h.witness()
+
+
+OBLIGATIONS = {'pre_commit_always': ob_pre_commit_always, 'append_stores': ob_append_stores, 'repeat': ob_repeat, 'changed': ob_changed, 'prune_select': ob_prune_select, 'pre_commit_skip': ob_pre_commit_skip,
                'pre_commit_untracked': ob_pre_commit_untracked}
 MUST_COVER = ['K4-skipped', 'K4-ran']
 
@@ -361,6 +437,16 @@ MUST_COVER = ['K4-skipped', 'K4-ran']
 def replay(v, native):
     inp = v['inputs']
     ob = v['obligation']
+    if 'staged_files' in inp:
+        r = native('c14_pre_commit_always', inp)
+        if 'panic' in r:
+            return {'reproduced': v['kind'] == 'panic', 'native': r}
+        return {'reproduced': v['kind'] != 'panic' and ob in r.get('failed', []), 'native': r}
+    if 'new_kind' in inp:
+        r = native('c14_append_stores', inp)
+        if 'panic' in r:
+            return {'reproduced': v['kind'] == 'panic', 'native': r}
+        return {'reproduced': v['kind'] != 'panic' and ob in r.get('failed', []), 'native': r}
     if ob.startswith('K4') and 'pre_commit' in inp:
         r = native('c14_pre_commit_untracked', inp)
         if 'panic' in r:
